@@ -16,7 +16,7 @@ MAX_BLOCKS = 400
 _cache = {}
 
 # private functions some rule anchors on by name: inlining them away would leave that rule without its anchor
-VOCABULARY = {'crdts::identifier::rational_between'}
+VOCABULARY = {'crdts::identifier::rational_between', 'crdts::merkle_reg::MerkleReg::all_hashes_seen'}
 PLUMBING_TRAITS = {'Extend', 'FromIterator', 'AsRef', 'AsMut', 'Borrow', 'BorrowMut', 'Deref', 'DerefMut', 'Index', 'IndexMut'}
 
 
@@ -28,7 +28,7 @@ def _callee_body(facts, t, same_type=None):
     cb = facts.by_uid.get(uid)
     if cb is None or cb.derived or cb.kind not in ('Fn', 'AssocFn'):
         return None
-    if uid in VOCABULARY:
+    if uid in VOCABULARY or cb.key in VOCABULARY:
         return None
     if same_type is not None and cb.impl_self == same_type and cb.impl_self:
         # level 'p': one API function of a type written in terms of another one of the SAME type (add -> add_all,
